@@ -11,7 +11,7 @@ Open Scope Z_scope.
 Definition T_CON := 0. Definition T_NON := 1. Definition T_ACK := 2. Definition T_RST := 3.
 Definition EMPTY_ACK_DELAY := 100000.   (* microseconds; numbers/constants.py *)
 
-Record wire := { w_rid : Z (* id of the request it answers, -1 for empty messages *); w_remote : Z; w_type : Z; w_mid : Z; w_code : Z; w_token : bytes; w_payload : bytes; w_cf : option Z }.
+Record wire := { w_rid : Z (* id of the request it answers, -1 for empty messages *); w_remote : Z; w_type : Z; w_mid : Z; w_code : Z; w_token : bytes; w_payload : bytes; w_cf : option Z; w_obs : option Z }.
 
 Definition key := (Z * bytes)%type.     (* (remote, token) *)
 Definition key_eqb (a b : key) : bool := (fst a =? fst b) && beqb (snd a) (snd b).
@@ -49,9 +49,9 @@ Definition suppressed (m : msg) : bool :=
   negb (Z.land (match m_nr m with Some n => n | None => 0 end) (Z.shiftl 1 (class_ (code_of m) - 1)) =? 0).
 Definition mk_wire (r : request) (t mid : Z) (m : msg) : wire :=
   {| w_rid := r_id r; w_remote := r_remote r; w_type := t; w_mid := mid; w_code := code_of m; w_token := r_token r;
-     w_payload := m_payload m; w_cf := m_cf m |}.
+     w_payload := m_payload m; w_cf := m_cf m; w_obs := m_obs m |}.
 Definition empty_ack (remote mid : Z) : wire :=
-  {| w_rid := -1; w_remote := remote; w_type := T_ACK; w_mid := mid; w_code := EMPTY; w_token := []; w_payload := []; w_cf := None |}.
+  {| w_rid := -1; w_remote := remote; w_type := T_ACK; w_mid := mid; w_code := EMPTY; w_token := []; w_payload := []; w_cf := None; w_obs := None |}.
 
 (* MessageManager._send_initially (+ _add_exchange for CON)  (messagemanager.py:523-537, 249-272) *)
 Definition send_initially (s : state) (w : wire) : state * list wire :=
@@ -125,7 +125,7 @@ Definition step_out := (list wire * list logrec * Z)%type.   (* datagrams, log r
    every response that has none, whoever produced it *)
 Definition tm_fill (r : request) (m : msg) : msg :=
   {| m_code := m_code m; m_payload := m_payload m; m_cf := m_cf m;
-     m_nr := match m_nr m with Some n => Some n | None => r_nr r end |}.
+     m_nr := match m_nr m with Some n => Some n | None => r_nr r end; m_obs := m_obs m |}.
 (* effects of what the pipes did: every Send is a token_interface.send_message(m, stop) *)
 Fixpoint perform (s : state) (r : request) (acts : list action) : state * list wire * list logrec :=
   match acts with
@@ -165,7 +165,7 @@ Definition step_req (srv : option site) (s : state) (r : request) : state * step
     | Some old =>                                              (* "Incoming request overrides existing request": pop, stop() *)
         let '(_, acts, _) := old_unregister_tm (e_pipes old) in
         let '(s', _, l) := perform (set_incoming s1 (remove_id (r_id (e_req old)) (s_incoming s1))) (e_req old) acts in
-        (s', l)
+        (s', l ++ (if cancel_raises srv (e_req old) && negb (e_finished old) then [LogDiscarded] else []))
     | None => (s1, [])
     end in
   let e := {| e_req := r; e_pipes := setup_pipes; e_finished := false |} in
